@@ -74,23 +74,51 @@ def mutate(r, sql, pool):
     return "".join(t)
 
 
+ACCESSORS = ["_eval", "source_tables", "target_tables", "intermediate_tables", "get_column_lineage", "to_cytoscape", "__str__",
+             "print_table_lineage"]
+
+
 def run_one(case):
+    """the outcome of THREE consecutive calls of public accessors on one runner object (which three: derived from the text);
+    all must end the same way - a result, or the same exception type of the library (lazy evaluation must not turn the
+    second call into something else)"""
+    import contextlib
+    import io
     import logging
+    import zlib
     logging.disable(logging.CRITICAL)
     warnings.filterwarnings("ignore")
     from sqllineage.exceptions import SQLLineageException
     from sqllineage.runner import LineageRunner
     sql, d, silent = case
-    try:
-        LineageRunner(sql, dialect=d, silent_mode=silent)._eval()
-        return "ok"
-    except SQLLineageException as e:
-        return "lib:" + type(e).__name__
-    except BaseException as e:
-        tb = traceback.extract_tb(e.__traceback__)
-        site = [f for f in tb if "/sqllineage/" in f.filename]
-        s = site[-1] if site else (tb[-1] if tb else None)
-        return "ESC:%s@%s:%s" % (type(e).__name__, s.filename.split("/sqllineage/")[-1] if s else "?", s.name if s else "?")
+    h = zlib.crc32(sql.encode("utf-8", "replace"))
+    seq = [ACCESSORS[h % 8], ACCESSORS[(h // 8) % 8], ACCESSORS[(h // 64) % 8]]
+    outs = []
+    lr = None
+    for acc in seq:
+        try:
+            if lr is None:
+                lr = LineageRunner(sql, dialect=d, silent_mode=silent)
+            a = getattr(lr, acc)
+            if acc == "print_table_lineage":
+                with contextlib.redirect_stdout(io.StringIO()):
+                    a()
+            elif callable(a):
+                a()
+            outs.append("ok")
+        except SQLLineageException as e:
+            outs.append("lib:" + type(e).__name__)
+        except BaseException as e:
+            tb = traceback.extract_tb(e.__traceback__)
+            site = [f for f in tb if "/sqllineage/" in f.filename]
+            s = site[-1] if site else (tb[-1] if tb else None)
+            outs.append("ESC:%s@%s:%s" % (type(e).__name__, s.filename.split("/sqllineage/")[-1] if s else "?", s.name if s else "?"))
+    esc = [o for o in outs if o.startswith("ESC")]
+    if esc:
+        return esc[0]
+    if len(set(outs)) > 1:
+        return "ESC:inconsistent-outcomes@%s:%s" % ("/".join(seq), "/".join(outs))
+    return outs[0]
 
 
 def main() -> int:
